@@ -459,6 +459,24 @@ func (e *Engine) lookupNative(fi *FnInfo) *Native {
 			nm.obj = id
 			return Iface{t: m.t, v: nm}
 		})
+	// ---- strconv formatting of a possibly symbolic integer (decimal): same digit-string model as
+	// the %d verb of the fmt shim; other bases / concrete values run strconv's own code
+	case "strconv.Itoa", "strconv.FormatInt", "strconv.FormatUint":
+		return &Native{fn: func(e *Engine, s *State, gi int, fi *FnInfo, args []Value, kind retKind) {
+			x := args[0].(*Term)
+			base10 := true
+			if len(args) > 1 {
+				b := args[1].(*Term)
+				base10 = b.IsConst() && b.val == 10
+			}
+			if x.IsConst() || !base10 {
+				// concrete (or not decimal): the real implementation, from SSA
+				g := s.wg(gi)
+				e.pushFrame(s, g, fi, args, nil, kind)
+				return
+			}
+			e.finishCall(s, gi, kind, e.itoa(s, gi, e.toW(x, 64, name != "strconv.FormatUint")))
+		}}
 	// ---- strings
 	case "strings.ToLower", "strings.ToUpper":
 		upper := name == "strings.ToUpper"
